@@ -89,6 +89,9 @@ func newEnv(k *Case) (*Env, error) {
 			return d
 		},
 	}
+	if k.NoDB {
+		o.NoDB, o.WrapDB = true, nil
+	}
 	ca, err := fixture.New(o)
 	if err != nil {
 		e.Close()
@@ -366,6 +369,9 @@ var tables = []string{"used_ott", "x509_certs", "x509_certs_data", "ssh_certs", 
 
 func (e *Env) snapshot() map[string]int {
 	m := map[string]int{}
+	if e.fdb == nil { // no database: nothing to observe
+		return m
+	}
 	for _, t := range tables {
 		m[t] = e.fdb.count(t)
 	}
